@@ -4,15 +4,20 @@ import ast
 import copy
 import random
 
+import c09c
 import extract_prec
 import util
 from framework import pmap
 
 ID = 'C09'
 LEAN_MODULES = ['Pfst.Props.C09']
+LEAN_MODULES += ['Pfst.Props.C09c']
 LEAN_DEPS = ['Pfst.Grammar', 'Pfst.GrammarLemmas', 'Pfst.Prec']
 THEOREMS = ['Pfst.C09.pr_derives', 'Pfst.C09.pr_minimal_derives', 'Pfst.C09.replace_groups', 'Pfst.C09.table_sound',
             'Pfst.C09.not_derives_sub_right']
+THEOREMS += ['Pfst.C09c.parse_derives', 'Pfst.C09c.parse_iff', 'Pfst.C09c.derives_unique', 'Pfst.C09c.parse_pr',
+             'Pfst.C09c.parse_pr_minimal', 'Pfst.C09c.parse_pr_whole', 'Pfst.C09c.pr_derives_only',
+             'Pfst.C09c.replace_groups_unique']
 RULE = ('(i) spec grammar vs CPython: abstract syntax trees over every construct kind (every parent kind x child slot x child '
         'kind at depth 2, random to depth 4) printed by the Lean printer with the minimal policy, parsed by CPython, compared '
         'with the intended tree; (ii) every cell of the regenerated pfst table vs the spec need (Lean, kernel-checked) and '
@@ -392,6 +397,7 @@ def correspondence(ctx):
                 f'{bad} printed trees do not parse back to the intended tree; first: {ctx.corr_disagreements[0] if ctx.corr_disagreements else ""}')
     # (ii) precedence_require_parens on real edges vs the regenerated table
     edges_vs_table(ctx)
+    c09c.correspondence_c09c(ctx)
 
 
 def _edge_worker(src):
